@@ -3,7 +3,7 @@ import json
 import os
 import vlib
 
-PROPS = ['Rangers.Props.C07', 'Rangers.Props.C07Rlp', 'Rangers.Props.C07Conv', 'Rangers.Props.C07Secp', 'Rangers.Props.C07Facts']
+PROPS = ['Rangers.Props.C07', 'Rangers.Props.C07Rlp', 'Rangers.Props.C07Conv', 'Rangers.Props.C07Secp', 'Rangers.Props.C07Facts', 'Rangers.Props.C07Admit']
 DRIVERS = ['C07']
 META = dict(
     level='proof',
@@ -37,6 +37,11 @@ def gen(ctx):
     if rc != 0 or 'namespace Rangers.Generated.C07' not in so:
         return dict(ok=False, error='c07facts failed: ' + (se or so)[-800:])
     changed = vlib.write_if_changed(os.path.join(vlib.LEAN, 'Rangers', 'Generated', 'C07Facts.lean'), so)
+    # admission paths: every call site that can put a transaction into the pool, whole src/ tree
+    rc, so2, se2 = vlib.go_run_gen(ctx, 'c07admit', ['repo=' + ctx.repo])
+    if rc != 0 or 'admissionSites' not in so2:
+        return dict(ok=False, error='c07admit failed: ' + (se2 or so2)[-800:])
+    changed = vlib.write_if_changed(os.path.join(vlib.LEAN, 'Rangers', 'Generated', 'C07Admit.lean'), so2) or changed
     # the reflected RLP shape of eth_tx.txdata (C08's translator) is a fact C07 leans on as well
     g8 = vlib.load_plugin('C08').gen(ctx)
     if not g8.get('ok'):
